@@ -54,6 +54,31 @@ fn hash_of_tree(t: &Tree) -> Hash {
     h
 }
 
+/// parse a canonical name "v(child,child,...)" back into the spec's structural form {v, ch:[...]}
+pub fn struct_of_name(name: &str) -> Value {
+    fn parse(b: &[u8], i: &mut usize) -> Value {
+        let mut v = 0u64;
+        while *i < b.len() && b[*i].is_ascii_digit() {
+            v = v * 10 + (b[*i] - b'0') as u64;
+            *i += 1;
+        }
+        let mut ch = vec![];
+        if *i < b.len() && b[*i] == b'(' {
+            *i += 1;
+            while *i < b.len() && b[*i] != b')' {
+                ch.push(parse(b, i));
+                if *i < b.len() && b[*i] == b',' {
+                    *i += 1;
+                }
+            }
+            *i += 1;
+        }
+        json!({"v": v, "ch": ch})
+    }
+    let mut i = 0;
+    parse(name.as_bytes(), &mut i)
+}
+
 fn names_sorted(mut v: Vec<String>) -> Value {
     v.sort();
     json!(v)
@@ -100,6 +125,11 @@ impl Engine for MerkleEng {
             Node { children, value }.hash() == key
         });
         json!({"roots": names_sorted(roots), "dag": names_sorted(dag), "orphans": names_sorted(orphans), "keyed_by_own_hash": keyed_ok})
+    }
+    fn trace_post(s: &S, d: &Dims) -> Value {
+        let p = Self::proj(s, d);
+        let conv = |k: &str| -> Vec<Value> { p[k].as_array().unwrap().iter().map(|n| struct_of_name(n.as_str().unwrap())).collect() };
+        json!({"roots": conv("roots"), "dag": conv("dag"), "orphans": conv("orphans")})
     }
     fn canon_b(b: &Value) -> Value {
         json!({"roots": names_sorted(set_names(&b["roots"])), "dag": names_sorted(set_names(&b["dag"])),
@@ -204,5 +234,21 @@ impl Engine for MerkleEng {
     }
     fn is_ctx_path(_p: &str) -> bool {
         false
+    }
+}
+
+impl crate::drive::Driveable for MerkleEng {
+    fn random_cmd(s: &S, _r: usize, rng: &mut rand::rngs::StdRng, d: &Dims) -> Option<Value> {
+        use rand::Rng;
+        let v = rng.gen_range(1..=d.m.max(1)) as u64;
+        let p = Self::proj(s, d);
+        let pick: Vec<Value> = if rng.gen_bool(0.7) {
+            // on top of the heads read
+            s.read().hashes().iter().map(|h| struct_of_name(&name_of(h))).collect()
+        } else {
+            // on an arbitrary subset of the visible nodes
+            p["dag"].as_array().unwrap().iter().filter(|_| rng.gen_bool(0.4)).map(|n| struct_of_name(n.as_str().unwrap())).collect()
+        };
+        Some(json!({"c": "write", "v": v, "on": pick}))
     }
 }
